@@ -1,6 +1,6 @@
 (* C07, target-cursor mode, filters with New and Undo and any stop block (C07_seamless_target_nu of
    Spec/C07_More_Spec.v): the run shapes with the pass-through resolver (through_prefix) and the hub's answer "through
-   the cursor" (hub_through_shape), under the two agreement hypotheses of c07_seamless_target_partial. *)
+   the cursor" (hub_through_shape), under target_on_chain. *)
 From Coq Require Import Sorted.
 From BV Require Import Base.Prelude Model.Block Model.ForkDB Model.Forkable Model.ForkableLookups Model.Burst Model.Hub
   Model.CursorResolver Model.Joining
@@ -16,90 +16,6 @@ From BV Require Import Base.Prelude Model.Block Model.ForkDB Model.Forkable Mode
   Proofs.C07_ComposeCursor Proofs.C07_ComposeCursorLive Proofs.C07_ComposeCursorAll Proofs.C07_ComposeTarget
   Proofs.C07_FilesFinal Proofs.C07_Raw Proofs.C07_Shapes Proofs.C07_Filters Proofs.C07_ChainFacts Proofs.C07_Delivery.
 Local Open Scope N_scope.
-
-(* ------------------------------------------------------------------ the join "through the cursor" proper *)
-
-Section ThroughOn.
-  Variable U : list block.
-  Variables first kept : N.
-  Hypothesis U_id : forall b, In b U -> bid b <> 0 /\ bid b <> bparent b.
-  Hypothesis U_uniq : forall x y, In x U -> In y U -> bid x = bid y -> x = y.
-  Hypothesis U_up : forall x y, In x U -> In y U -> bparent x = bid y -> bnum y < bnum x.
-
-  (* two parent-linked runs through the same block B: a block of the second at or below B and not below the first's
-     bottom is on the first *)
-  Lemma anc_on_run (G Cn : list block) (g0 : block) (G' : list block) (B bn : block) :
-    G = g0 :: G' -> (exists x, lnk x G) -> (exists x, lnk x Cn) ->
-    Forall (fun y => In y U) G -> Forall (fun y => In y U) Cn ->
-    In B G -> In B Cn -> In bn Cn -> bnum bn <= bnum B -> bnum g0 <= bnum bn -> In bn G.
-  Proof.
-    intros EG [xg HlG] [xc HlC] HGU HCU HBG HBC Hbn Hle Hg0.
-    destruct (in_split _ _ HBG) as (G1 & G2 & EG1). destruct (in_split _ _ HBC) as (C1 & C2 & EC1).
-    assert (HlG1 : lnk xg (G1 ++ [B])).
-    { apply (linked_prefix xg (G1 ++ [B]) G2). rewrite <- app_assoc. cbn [app]. rewrite <- EG1. exact HlG. }
-    assert (HlC1 : lnk xc (C1 ++ [B])).
-    { apply (linked_prefix xc (C1 ++ [B]) C2). rewrite <- app_assoc. cbn [app]. rewrite <- EC1. exact HlC. }
-    assert (HGU1 : Forall (fun y => In y U) (G1 ++ [B])).
-    { rewrite EG1 in HGU. apply Forall_app in HGU as [H1 H2]. apply Forall_app. split; [exact H1|].
-      constructor; [exact (Forall_inv H2) | constructor]. }
-    assert (HCU1 : Forall (fun y => In y U) (C1 ++ [B])).
-    { rewrite EC1 in HCU. apply Forall_app in HCU as [H1 H2]. apply Forall_app. split; [exact H1|].
-      constructor; [exact (Forall_inv H2) | constructor]. }
-    pose proof (linked_sorted U U_id U_uniq U_up Cn xc HlC HCU) as HSC.
-    assert (Hbn1 : In bn (C1 ++ [B])).
-    { rewrite EC1 in Hbn. apply in_app_or in Hbn as [H|[H|H]].
-      - apply in_or_app. left. exact H.
-      - apply in_or_app. right. left. exact H.
-      - exfalso. rewrite EC1 in HSC. apply StronglySorted_app_r in HSC. inversion HSC as [|? ? _ Hall]; subst.
-        rewrite Forall_forall in Hall. specialize (Hall bn H). unfold blt in Hall. lia. }
-    assert (Hsub : forall z, In z (G1 ++ [B]) -> In z G).
-    { intros z Hz. rewrite EG1. apply in_app_or in Hz as [Hz|[<-|[]]]; apply in_or_app; [left; exact Hz | right; left; reflexivity]. }
-    destruct (linked_same_end U U_uniq G1 C1 xg xc B HlG1 HlC1 HGU1 HCU1) as [[d Ed]|[d Ed]].
-    - apply Hsub. rewrite Ed, <- app_assoc. apply in_or_app. right. exact Hbn1.
-    - rewrite Ed, <- app_assoc in Hbn1. apply in_app_or in Hbn1 as [Hd|Hin]; [|apply Hsub; exact Hin].
-      exfalso.
-      assert (Hg0in : In g0 (G1 ++ [B])).
-      { rewrite EG in EG1. destruct G1 as [|g1 G1'].
-        - cbn [app] in EG1. injection EG1 as -> _. left. reflexivity.
-        - cbn [app] in EG1. injection EG1 as -> _. left. reflexivity. }
-      pose proof (linked_sorted U U_id U_uniq U_up (C1 ++ [B]) xc HlC1 HCU1) as HS1.
-      rewrite Ed, <- app_assoc in HS1.
-      assert (Hlt : forall a l2, StronglySorted blt (d ++ l2) -> In a d -> forall z, In z l2 -> bnum a < bnum z).
-      { clear. induction d as [|u d IH]; intros a l2 HS Ha z Hz; [destruct Ha|].
-        cbn [app] in HS. inversion HS as [|? ? HS' Hall]; subst. destruct Ha as [<-|Ha].
-        - rewrite Forall_forall in Hall. apply (Hall z). apply in_or_app. right. exact Hz.
-        - exact (IH a l2 HS' Ha z Hz). }
-      specialize (Hlt bn (G1 ++ [B]) HS1 Hd g0 Hg0in). lia.
-  Qed.
-
-  (* hub.SourceThroughCursor asked for a block number at or below the cursor block answers only when the cursor
-     block is on the head's segment (the branch for a cursor block stored off the chain being excluded) *)
-  Lemma through_proper_on_chain s V n cu burst hd sg :
-    VState U first kept s V ->
-    (forall hd sg, last_sent s = Some hd -> complete_segment (db s) (bref hd) = Some (sg, true) ->
-       find (ri (cu_blk cu)) (store (db s)) <> None -> block_in (ri (cu_blk cu)) sg = true) ->
-    n <= rn (cu_blk cu) ->
-    hub_through_cursor s n cu = BOk burst ->
-    last_sent s = Some hd -> complete_segment (db s) (bref hd) = Some (sg, true) ->
-    block_in (ri (cu_blk cu)) sg = true.
-  Proof.
-    intros HV Hon Hn Hb Hls Eseg.
-    unfold hub_through_cursor in Hb. replace (rn (cu_blk cu) <? n) with false in Hb by (symmetry; apply N.ltb_ge; exact Hn).
-    unfold blocks_through_cursor in Hb.
-    destruct (has_lib (db s)); [|discriminate]. cbn [negb] in Hb. rewrite Hls, Eseg in Hb.
-    destruct sg as [|s0 sg0]; [discriminate|].
-    destruct (n <? snum s0); [discriminate|].
-    destruct (block_in (ri (cu_blk cu)) (s0 :: sg0)) eqn:Eblk; [reflexivity|]. exfalso.
-    destruct (complete_segment (db s) (cu_blk cu)) as [[csg [|]]|] eqn:Ecs; try discriminate.
-    2:{ destruct csg; discriminate. }
-    destruct csg as [|c0 csg0]; [discriminate|].
-    pose proof (complete_segment_segment_of _ _ _ _ Ecs) as [Hcst _ Hctop _ _].
-    destruct (exists_last (l := c0 :: csg0)) as (q & z & Ez); [discriminate|].
-    destruct (Hctop q z Ez) as (Hzid & _ & _).
-    assert (Hzst : find (sid z) (store (db s)) = Some (sent z)) by (apply Hcst; rewrite Ez; apply in_or_app; right; left; reflexivity).
-    rewrite Hzid in Hzst. rewrite (Hon hd (s0 :: sg0) Hls Eseg) in Eblk; [discriminate|]. rewrite Hzst. discriminate.
-  Qed.
-End ThroughOn.
 
 Section TgtRun.
   Variable U : list block.
@@ -132,7 +48,6 @@ Section TgtRun.
 
   Let merged := filter (fun b => bnum b <? merged_end) canon.
   Hypothesis Hbound : Forall (fun b => bnum b < file_bound) merged.
-  Hypothesis Hfo : files_on_hub c w merged.
   Hypothesis Hto : target_on_chain c w cu.
 
   Let res := stream_run c w ps merged_end merged forked.
@@ -157,59 +72,12 @@ Section TgtRun.
   Lemma D_merged b : In b D -> In b merged.
   Proof. intros H. apply (dlv_in c canon start merged_end b) in H. tauto. Qed.
 
-  (* a join in target-cursor mode hands over the retained chain from the joining block on (target_joins of
-     C07_ComposeTarget.v without its filter / stop hypotheses) *)
+  (* a join in target-cursor mode hands over the retained chain from the joining block on *)
   Lemma target_joins' : joins_good U c merged w.
   Proof.
-    intros m lowest bn burst Hbn Ej.
-    unfold join_try in Ej. rewrite Hmode, Hcur in Ej. cbn [N.eqb] in Ej.
-    destruct ((lowest <=? bnum (eblk (fev bn))) && matches_new (estep (fev bn))); [|discriminate].
-    cbn [eblk file_event] in Ej.
-    destruct (hub_through_cursor (h_f (w_hub (world_after c m w))) (bnum bn) cu) as [evs| | |] eqn:Eb; try discriminate.
-    destruct (h_ready (w_hub (world_after c m w))) eqn:Hrd; [|discriminate]. injection Ej as <-.
-    split; [reflexivity|]. intros V HV. fold first kept in HV.
-    set (s := h_f (w_hub (world_after c m w))) in *.
-    destruct (hub_through_shape U first kept U_id U_uniq U_up s V (bnum bn) cu evs HV (fun hd sg H1 H2 H3 => Hto m hd sg Hrd H1 H2 H3) Eb)
-      as (hd & sg & pre & post & Hls & Eseg & Hgood & Hsg & Hpre & Hpost & Hevs & Hfirst & Hnonempty).
-    pose proof Hgood as [Hstd _ Hinc _].
-    assert (Hn : forall y, In y sg -> snum y = bnum (seg_blk y)).
-    { intros y Hy. rewrite Forall_forall in Hstd. exact (proj2 (Hstd y Hy)). }
-    destruct (vstate_segment U first kept U_id U_uniq U_up s V hd sg true HV Hls Eseg) as (_ & HsU & _).
-    assert (Hpne : post <> []).
-    { destruct Hnonempty as [H|[Hin Hle]]; [exact H|]. apply block_in_spec in Hin as (xB & HxB & HsB).
-      assert (EB : seg_blk xB = B).
-      { apply U_uniq; [rewrite Forall_forall in HsU; apply HsU; exact HxB | exact HBU|].
-        rewrite Forall_forall in Hstd. destruct (Hstd xB HxB) as [H1 _]. rewrite <- H1, HsB, <- HB. reflexivity. }
-      assert (HnB : snum xB = rn (cu_blk cu)) by (rewrite (Hn xB HxB), EB, <- HB; reflexivity).
-      intros E. rewrite E, app_nil_r in Hsg. rewrite Hsg in HxB. specialize (Hpre xB HxB). lia. }
-    destruct post as [|x0 r] eqn:Ep; [contradiction|].
-    destruct (seg_post_facts U first kept U_id U_uniq U_up s V hd sg pre x0 r HV Hls Eseg Hsg) as (Hhd & HpU & Hlr & Hlast & Hle).
-    assert (Hx0in : In x0 sg) by (rewrite Hsg; apply in_or_app; right; left; reflexivity).
-    assert (Hx0n : bnum bn <= snum x0) by (apply Hpost; left; reflexivity).
-    destruct sg as [|s0 sg0] eqn:Esg0; [destruct pre; discriminate|].
-    assert (Hs0 : snum s0 <= bnum bn).
-    { destruct pre as [|p0 pre0].
-      - destruct (Hfirst eq_refl ltac:(discriminate)) as (x0' & r' & E & Hx0'). injection E as <- <-.
-        cbn [app] in Hsg. injection Hsg as -> _. lia.
-      - cbn [app] in Hsg. injection Hsg as -> _. specialize (Hpre p0 (or_introl eq_refl)). lia. }
-    destruct (N.le_gt_cases (bnum bn) (bnum hd)) as [Hbh|Hbh].
-    2:{ exfalso. specialize (Hle x0 Hx0in). lia. }
-    destruct (Hfo m hd s0 sg0 bn Hrd Hls Eseg Hbn Hs0 Hbh) as (xb & Hxb & Exb).
-    assert (Hxbn : snum xb = bnum bn) by (rewrite (Hn xb Hxb), Exb; reflexivity).
-    assert (Exb0 : xb = x0).
-    { rewrite Hsg in Hxb. apply in_app_or in Hxb as [Hxb|[Hxb|Hxb]].
-      - specialize (Hpre xb Hxb). lia.
-      - symmetry. exact Hxb.
-      - exfalso. rewrite Hsg in Hinc. apply StronglySorted_app_r in Hinc. inversion Hinc as [|? ? _ Hall]; subst.
-        rewrite Forall_forall in Hall. specialize (Hall xb Hxb). rewrite Forall_forall in Hstd.
-        assert (H : snum x0 < snum xb) by (apply snum_lt_of; [apply Hstd; exact Hx0in | apply Hstd; rewrite Hsg; apply in_or_app; right; right; exact Hxb | exact Hall]).
-        lia. }
-    subst xb. rewrite Exb in *.
-    destruct Hlast as [l Hl]. exists hd, (map seg_blk r), l. split; [exact Hhd|]. split; [rewrite Hevs, map_eblk_snap; cbn [map]; rewrite Exb; reflexivity|].
-    split.
-    { rewrite Hevs. apply Forall_forall. intros e He. apply in_map_iff in He as (q & <- & _).
-      unfold snap_event. cbn [estep]. destruct (bnum (seg_blk q) <=? rn (libref (db s))); reflexivity. }
-    split; [exact HpU|]. split; [exact Hlr | exact Hl].
+    apply (target_joins_gen U c canon U_id U_uniq U_up HcU Hcl merged) with (cu := cu) (B := B);
+      [|exact HB | exact HBc | exact Hmode | exact Hcur | exact Hto].
+    intros b Hb. unfold merged in Hb. apply filter_In in Hb as [Hb _]. exact Hb.
   Qed.
 
   (* the pass-through resolver hands over a beginning D1 of the file blocks *)
@@ -348,7 +216,7 @@ End TgtRun.
 
 Lemma c07_seamless_target_nu_proof : C07_seamless_target_nu.
 Proof.
-  intros U c w ps merged_end canon forked cu B Hwfb Hlok [[l [Hl Hhub]] Hrest] Hchain Hincl merged Htip Hfo Hto
+  intros U c w ps merged_end canon forked cu B Hwfb Hlok [[l [Hl Hhub]] Hrest] Hchain Hincl merged Htip Hto
          Hmode Hcur Hnu Hbundle Hbound HBc HB res start Hstartblk.
   assert (Hscope : disc_scope2_b U = true) by (unfold disc_scope2_b; rewrite Hwfb, Hlok; reflexivity).
   pose proof (bridge_id U Hwfb) as Hid. pose proof (bridge_uniq U Hwfb) as Huniq. pose proof (bridge_up U Hwfb) as Hup.
@@ -356,12 +224,5 @@ Proof.
   assert (HW : WOK U c w).
   { split; [|exact Hrest]. rewrite Hhub. apply (hub_ok_run U (j_first c) (j_kept c) Hwfb Hlok l Hl). }
   exact (tgt_nu U c w ps merged_end canon forked cu B start Hid Huniq Hup Hdecl Hchain Hincl Hstartblk eq_refl HW Htip Hmode Hcur Hnu
-           Hbundle HBc HB Hbound Hfo Hto).
-Qed.
-
-Lemma c07_seamless_target_nu_final_proof : C07_seamless_target_nu_final.
-Proof.
-  intros U c w ps merged_end canon forked cu B Hwfb Hlok Hhub Hchain Hincl merged Htip Hff Hto.
-  apply (c07_seamless_target_nu_proof U c w ps merged_end canon forked cu B Hwfb Hlok Hhub Hchain Hincl Htip); [|exact Hto].
-  exact (Proofs.C07_FilesFinal.c07_files_final_on_hub_proof U c w merged_end canon Hwfb Hlok Hhub Hchain Hincl Htip Hff).
+           Hbundle HBc HB Hbound Hto).
 Qed.
